@@ -22,8 +22,21 @@ def transcript(line, quant=False, probs_only=False):
     return out
 
 
-def param_variants(rng, typ, thorough):
+def lossless_bits(m):
+    """the smallest (prob_bits, backoff_bits) for which the quantiser has a bin of its own for every value it is trained on: every order
+    fewer entries (blanks allowed for: x2 + 2) than probability bins, every middle order fewer NON-ZERO back-offs than back-off value bins
+    (2^b - 2: zero back-offs use the two reserved codes and are not trained on -- fifth-round seeded change C03-13 fed them in)"""
+    ent = max([len(m.file_order.get(n, [])) for n in range(2, m.order + 1)] + [1])
+    nzb = max([sum(1 for k in m.file_order.get(n, []) if m.grams[k]["bo"] != 0) for n in range(2, m.order)] + [0])
+    pb = next(b for b in range(2, 26) if ent * 2 + 2 < (1 << b))
+    bb = next(b for b in range(2, 26) if nzb * 2 + 2 < (1 << b) - 2)
+    return pb, bb
+
+
+def param_variants(rng, typ, thorough, m=None):
     v = [[]]
+    if typ in ("qtrie", "qatrie") and m is not None and getattr(m, "raw_arpa", None) is None:
+        v += [["probbits=%d" % lossless_bits(m)[0], "backoffbits=%d" % lossless_bits(m)[1]]]
     if typ in ("probing", "rest"):
         v += [["mult=%s" % rng.choice(["1.01", "1.1", "1.5", "2", "3", "10"])]]
         if thorough:
@@ -333,13 +346,20 @@ def run(ctx):
         big = big or hub
         sess = lc.Session(ctx, m, "m%d" % mi)
         qs = lc.gen_queries(rng, m, ctx.pick(30, 120)) + (lc.ngram_queries(m) if big else [])
+        # every stored non-zero back-off of order >= 2 is charged at least once: the context followed by a word that does not extend it
+        nzk = [k for k in sorted(m.grams) if len(k) >= 2 and m.grams[k]["bo"] != 0]
+        rng.shuffle(nzk)
+        for k in nzk[:25]:
+            ws = [w for w in range(1, len(m.vocab)) if (w,) + k not in m.grams]
+            if ws:
+                qs.append((0, list(reversed(k)) + [rng.choice(ws)]))
         if big:
             stats["big_models"] = stats.get("big_models", 0) + 1
         base = {"arpa": m.arpa_bytes().decode("latin-1"), "vocab": m.vocab_bytes().decode("latin-1"), "queries": qs[:50]}
         closed = m.suffix_closed()
         ref = {}          # reference transcripts
         for typ in lc.TYPES:
-            for opts in param_variants(rng, typ, not ctx.quick):
+            for opts in param_variants(rng, typ, not ctx.quick, m):
                 r = sess.run_impl(lmq, typ, qs, opts=opts)
                 stats["impl_runs"] += 1
                 stats["param_variants"] += 1 if opts else 0
@@ -400,7 +420,10 @@ def run(ctx):
                         if o.startswith("backoffbits="):
                             bbits = int(o.split("=")[1])
                     only_bits = all(o.startswith(("probbits=", "backoffbits=")) for o in opts)
-                    small = all(len(m.file_order.get(n, [])) * 2 + 2 < min(1 << pbits, (1 << bbits) - 2) for n in range(2, m.order + 1))
+                    small = all(len(m.file_order.get(n, [])) * 2 + 2 < (1 << pbits) for n in range(2, m.order + 1)) and \
+                        all(sum(1 for k in m.file_order.get(n, []) if m.grams[k]["bo"] != 0) * 2 + 2 < (1 << bbits) - 2 for n in range(2, m.order))
+                    if small and only_bits and opts:
+                        stats["quant_lossless_variants"] = stats.get("quant_lossless_variants", 0) + 1
                     if only_bits and small and ("struct", "trie") in ref:
                         exact = [transcript(l, False) for l in r["lines"]]
                         if exact != ref[("struct", "trie")][0]:
